@@ -364,7 +364,7 @@ def unit_getitem(U):
                 for c in key.constraints():
                     ctx.assume(c)
                 row, rv = ghostdb.feature_row(ctx, "row")
-                holder["row"] = row
+                ctx.stash["row"] = row
                 db = blank_db(ghostdb.GhostConn(result_for=lambda cur, kind, q, a: [row] if found else []))
                 k = key.sym() if form == "str" else blank_feature(id=key.sym())
                 return it.call(I.FeatureDB.__getitem__, [db, k], {})
@@ -403,7 +403,7 @@ def unit_getitem(U):
                 if found:
                     ok = p.kind == "return" and isinstance(p.value, F.Feature)
                     if ok:
-                        row = holder["row"]
+                        row = p.ctx.stash["row"]
                         ft = p.value
                         same = [_streq(getattr(ft, c), row[c]) for c in ("seqid", "source", "featuretype", "score", "strand", "frame", "id")]
                         same += [ft.start.e == row["start"].e, ft.end.e == row["end"].e] if isinstance(ft.start, SInt) and isinstance(ft.end, SInt) else [z3.BoolVal(False)]
